@@ -1,5 +1,5 @@
 (* Proofs about Algo/Modify.v (the model of bigtree/tree/modify.py) for property C08. *)
-From BT Require Import Base.Prelude Base.Str Base.Rose Algo.Modify Spec.PC08.
+From BT Require Import Base.Prelude Base.Str Base.StrSep Base.Rose Algo.Modify Spec.PC08.
 
 (* ============================================================================================== *)
 (* Part 1.  One call with several pairs = the same single-pair calls in sequence.                  *)
@@ -398,6 +398,12 @@ Fixpoint rp_seq (c : cfg) (f : forest) (fps : list str) (tps : list (option str)
   | _, _ => (f, None)
   end.
 
+Lemma seps_ok_no_refusal rp c fps tps : seps_ok c = true -> empty_sep_refusal rp c fps tps = false.
+Proof.
+  unfold seps_ok, empty_sep_refusal. intros H. apply andb_true_iff in H as [H H3]. apply andb_true_iff in H as [H1 H2].
+  apply negb_true_iff in H2, H3. rewrite H2, H3. rewrite andb_false_r. cbn [orb andb]. rewrite andb_false_r. reflexivity.
+Qed.
+
 Lemma cs_multi_is_seq c : seps_ok c = true -> forall fps tps f,
   nroots c <= length f -> cs_validate c f fps tps = None ->
   run_pairs (cs_pair c) f (map (norm_from c) fps) (map (norm_to c) tps) = cs_seq c f fps tps.
@@ -406,7 +412,7 @@ Proof.
   - destruct tps; reflexivity.
   - destruct tps as [|tp tps]; [apply cs_validate_len in Hv; discriminate|].
     apply cs_validate_cons in Hv as [Hv1 Hv2].
-    cbn [map run_pairs cs_seq]. unfold copy_or_shift_logic at 1. rewrite Hs, Hv1. cbn [negb map run_pairs].
+    cbn [map run_pairs cs_seq]. unfold copy_or_shift_logic at 1. rewrite (seps_ok_no_refusal false c _ _ Hs), Hv1. cbn [map run_pairs].
     destruct (cs_pair c f (norm_from c fp) (norm_to c tp)) as [f1 [e|]] eqn:Ep; [reflexivity|].
     pose proof (cs_pair_names _ _ _ _ _ Hl Ep) as K.
     apply IH; [apply K|]. rewrite (cs_validate_kept _ _ _ _ _ K). exact Hv2.
@@ -420,7 +426,7 @@ Proof.
   - destruct tps; reflexivity.
   - destruct tps as [|tp tps]; [apply rp_validate_len in Hv; discriminate|].
     apply rp_validate_cons in Hv as [Hv1 Hv2].
-    cbn [map run_pairs rp_seq]. unfold replace_logic at 1. rewrite Hs, Hv1. cbn [negb map run_pairs].
+    cbn [map run_pairs rp_seq]. unfold replace_logic at 1. rewrite (seps_ok_no_refusal true c _ _ Hs), Hv1. cbn [map run_pairs].
     destruct (rp_pair c f (norm_from c fp) (norm_to c tp)) as [f1 [e|]] eqn:Ep; [reflexivity|].
     pose proof (rp_pair_names _ _ _ _ _ Hl Ep) as K.
     apply IH; [apply K|]. rewrite (rp_validate_kept _ _ _ _ _ K). exact Hv2.
@@ -459,10 +465,10 @@ Theorem multi_is_sequence i : valid_call i = true -> run i = run_seq i.
 Proof.
   unfold valid_call. intros H. apply andb_true_iff in H as [Hs Hv].
   unfold run, run_seq, run_from at 1. destruct (is_replace (mi_op i)) eqn:Hr.
-  - rewrite (run_seq_from_rp i Hr). unfold replace_logic. rewrite Hs. cbn [negb].
+  - rewrite (run_seq_from_rp i Hr). unfold replace_logic. rewrite (seps_ok_no_refusal true _ _ _ Hs).
     destruct (rp_validate _ _ _ _) eqn:Ev; [discriminate|].
     apply rp_multi_is_seq; [exact Hs|apply init_forest_len|exact Ev].
-  - rewrite (run_seq_from_cs i Hr). unfold copy_or_shift_logic. rewrite Hs. cbn [negb].
+  - rewrite (run_seq_from_cs i Hr). unfold copy_or_shift_logic. rewrite (seps_ok_no_refusal false _ _ _ Hs).
     destruct (cs_validate _ _ _ _) eqn:Ev; [discriminate|].
     apply cs_multi_is_seq; [exact Hs|apply init_forest_len|exact Ev].
 Qed.
@@ -2154,12 +2160,12 @@ Proof.
   { unfold cfg_of. split; cbn; [|exact Htt]. destruct (mi_op i); try discriminate; reflexivity. }
   assert (Hs : nth_error (init_forest i) 0 = Some (mi_src i)) by (unfold init_forest; rewrite Htt; reflexivity).
   unfold run, run_from. destruct (is_replace (mi_op i)).
-  - unfold replace_logic. destruct (negb (seps_ok (cfg_of i))); [exact Hs|].
+  - unfold replace_logic. destruct (empty_sep_refusal true (cfg_of i) (mi_from i) (mi_to i)); [exact Hs|].
     destruct (rp_validate _ _ _ _); [exact Hs|].
     destruct (run_pairs _ _ _ _) as [f' o] eqn:Er. cbn [fst].
     eapply (run_pairs_keeps0 (rp_pair (cfg_of i)) (mi_src i)); [|exact Hs|exact Er].
     intros f fp tp f1 o1 H1 H2. eapply rp_pair_keeps0; eassumption.
-  - unfold copy_or_shift_logic. destruct (negb (seps_ok (cfg_of i))); [exact Hs|].
+  - unfold copy_or_shift_logic. destruct (empty_sep_refusal false (cfg_of i) (mi_from i) (mi_to i)); [exact Hs|].
     destruct (cs_validate _ _ _ _); [exact Hs|].
     destruct (run_pairs _ _ _ _) as [f' o] eqn:Er. cbn [fst].
     eapply (run_pairs_keeps0 (cs_pair (cfg_of i)) (mi_src i)); [|exact Hs|exact Er].
@@ -4768,8 +4774,8 @@ Proof.
   exists t2. split; [|split; [exact Hrows|]].
   - unfold run, run_from. cbn [mi_op i is_replace]. change (cfg_of i) with c. change (init_forest i) with [t].
     change (mi_from i) with [fp]. change (mi_to i) with [Some tp].
-    unfold copy_or_shift_logic. rewrite Hval. change (seps_ok c) with true.
-    cbn [negb map run_pairs]. rewrite Hnf, Hnt.
+    unfold copy_or_shift_logic. rewrite (seps_ok_no_refusal false c _ _ eq_refl), Hval.
+    cbn [map run_pairs]. rewrite Hnf, Hnt.
     assert (Hpair : cs_pair c [t] fp (Some tp) = ([t2], None)).
     { unfold cs_pair, resolve_from. change (f_full (c_fl c)) with true. cbn iota.
       unfold find_full_path at 1. cbn [nth_error]. change (c_ssep c) with [c0].
@@ -4792,6 +4798,136 @@ Proof.
     rewrite Hpair. reflexivity.
   - rewrite Hrows. apply (edit_cs_shift_new fl t p x comps PX); try assumption; reflexivity.
 Qed.
+
+(* ============================================================================================== *)
+(* Part 18.  The same for separators of any positive length (Base/StrSep.v): no character of the      *)
+(* separator occurs in a name, names are non-empty.                                               *)
+
+Lemma replace_go_same (sp : str) : sp <> [] -> forall fuel s, length s < fuel -> replace_go fuel sp sp s = s.
+Proof.
+  intros Hsp. induction fuel as [|f IH]; intros s H; [lia|]. destruct s as [|y t]; [reflexivity|].
+  cbn [replace_go]. destruct (startswith (y :: t) sp) eqn:E.
+  - apply startswith_prefix in E as [r Hr]. rewrite Hr. rewrite skipn_app_exact. f_equal. apply IH.
+    rewrite Hr, app_length in H. destruct sp; [congruence|]. cbn [length] in H. lia.
+  - f_equal. apply IH. cbn [length] in H. lia.
+Qed.
+
+Lemma py_replace_same a sp' s : py_replace s (a :: sp') (a :: sp') = s.
+Proof. unfold py_replace, replace. apply replace_go_same; [discriminate|lia]. Qed.
+
+Lemma sgood_sfree_all sp (L : list str) : Forall (sgood sp) L -> Forall (sfree sp) L.
+Proof. intros H. eapply Forall_impl; [|exact H]. intros w [_ Hw]. exact Hw. Qed.
+
+Lemma join_nonempty_m sp L : L <> [] -> Forall (sgood sp) L -> join sp L <> [].
+Proof.
+  intros Hne Hf. destruct L as [|w ws]; [congruence|]. inversion Hf as [|? ? [Hw _] _]; subst.
+  destruct ws; cbn; [exact Hw|]. destruct w; [congruence|discriminate].
+Qed.
+
+Lemma split_join_m a sp' L : L <> [] -> Forall (sgood (a :: sp')) L -> split (join (a :: sp') L) (a :: sp') = L.
+Proof. intros Hne Hf. apply split_join_multi; [exact Hne|apply sgood_sfree_all; exact Hf]. Qed.
+
+Lemma lstrip_join_m sp L : L <> [] -> Forall (sgood sp) L -> lstrip (join sp L) sp = join sp L.
+Proof.
+  intros Hne Hf. destruct L as [|w ws]; [congruence|]. inversion Hf as [|? ? Hw _]; subst. destruct ws as [|w' ws].
+  - cbn [join]. rewrite <- (app_nil_r w). apply lstrip_stop. exact Hw.
+  - rewrite join_cons2. apply lstrip_stop. exact Hw.
+Qed.
+
+Lemma norm_path_m a sp' L :
+  L <> [] -> Forall (sgood (a :: sp')) L ->
+  let sp := a :: sp' in
+  py_replace (rstrip (join sp L) sp) sp sp = join sp L
+  /\ split (lstrip (join sp L) sp) sp = L
+  /\ split (lstrip (rstrip (join sp L) sp) sp) sp = L
+  /\ split (rstrip (lstrip (join sp L) sp) sp) sp = L.
+Proof.
+  intros Hne Hf sp.
+  assert (Hr : rstrip (join sp L) sp = join sp L) by (apply (rstrip_join_multi sp L [] Hne Hf)).
+  assert (Hl : lstrip (join sp L) sp = join sp L) by (apply lstrip_join_m; assumption).
+  rewrite Hr, Hl, Hr. unfold sp. rewrite py_replace_same, split_join_m by assumption. auto.
+Qed.
+
+Theorem C08_shift_whole_call_multi_stmt (a : N) (sp' : str) sk t p x comps PX :
+  let sep := a :: sp' in
+  let fl := MF sk false false false false true in
+  let Q := tname t :: comps in
+  wf_t t -> p <> [] -> tget t p = Some x -> tpath t p = Some PX ->
+  Forall (sgood (a :: sp')) PX -> Forall (sgood (a :: sp')) Q ->
+  pfx PX Q = false -> has (rows t) (Q ++ [tname x]) = false ->
+  let i := MI OpShift fl sep t sep (T None [] [] []) sep [join sep PX] [Some (join sep (Q ++ [tname x]))] in
+  valid_call i = true
+  /\ exists t2, run i = ([t2], None)
+     /\ rows t2 = insert_last (minus (ensure (rows t) [tname t] comps) PX) Q (rows_from Q x)
+     /\ edit_cs false true fl (rows t) (rows t) PX (Some (Q ++ [tname x])) = PNext (rows t2) (rows t2).
+Proof.
+  intros sep fl Q Hwf Hp Hx HPX HfX HfQ Hnotin Habs i. subst sep.
+  destruct (t_sub_rows t p x PX Hwf Hp Hx HPX) as [P0 [HP0 _]].
+  destruct (tpath_ext _ _ _ HPX) as [restp [HPe Hlp]].
+  assert (Hsx : sgood (a :: sp') (tname x)).
+  { rewrite HP0 in HfX. apply Forall_app in HfX as [_ H]. inversion H; assumption. }
+  assert (HfT : Forall (sgood (a :: sp')) (Q ++ [tname x])) by (apply Forall_app; split; [exact HfQ|constructor; [exact Hsx|constructor]]).
+  assert (HneX : PX <> []) by (rewrite HPe; discriminate).
+  assert (HneQ : Q <> []) by (unfold Q; discriminate).
+  assert (HneT : Q ++ [tname x] <> []) by (destruct Q; discriminate).
+  destruct (norm_path_m a sp' PX HneX HfX) as [Hx1 [Hx2 [Hx3 Hx4]]].
+  destruct (norm_path_m a sp' (Q ++ [tname x]) HneT HfT) as [Ht1 [Ht2 [Ht3 Ht4]]].
+  destruct (norm_path_m a sp' Q HneQ HfQ) as [Hq1 [Hq2 [Hq3 Hq4]]].
+  set (fp := join (a :: sp') PX) in *. set (tp := join (a :: sp') (Q ++ [tname x])) in *.
+  assert (Htpne : tp <> []) by (apply join_nonempty_m; assumption).
+  pose (c := CFG false false (a :: sp') (a :: sp') (a :: sp') fl).
+  assert (Hnf : norm_from c fp = fp) by (unfold norm_from, c; cbn [c_sep c_ssep]; exact Hx1).
+  assert (Hnt : norm_to c (Some tp) = Some tp).
+  { unfold norm_to. rewrite truthy_some by exact Htpne. unfold c. cbn [c_sep c_dsep]. f_equal. exact Ht1. }
+  assert (Hsplitf : split fp (a :: sp') = PX) by (apply split_join_m; assumption).
+  assert (Hsplitt : split tp (a :: sp') = Q ++ [tname x]) by (apply split_join_m; assumption).
+  assert (Hcomps : forall cc, In cc comps -> cc <> []).
+  { intros cc Hcc. inversion HfQ as [|? ? _ Hf']; subst. rewrite Forall_forall in Hf'. apply (Hf' cc Hcc). }
+  (* the argument checks *)
+  assert (Hval : cs_validate c [t] [fp] [Some tp] = None).
+  { unfold cs_validate. change (c_fl c) with fl. change (c_copy c) with false.
+    cbn [f_mc f_ml fl andb length Nat.eqb negb existsb map].
+    rewrite Hnf, Hnt. cbn [last_names_ok]. rewrite truthy_some by exact Htpne.
+    change (c_ssep c) with (a :: sp'). change (c_dsep c) with (a :: sp').
+    rewrite Hsplitf, Hsplitt, last_last. rewrite HP0 at 1. rewrite last_last, str_eqb_refl.
+    cbn [andb negb]. unfold roots_ok. change (c_fl c) with fl. change (c_ssep c) with (a :: sp'). change (c_dsep c) with (a :: sp').
+    change (dpiece c) with 0.
+    cbn [f_full fl negb orb forallb]. rewrite truthy_some by exact Htpne. rewrite Hx2, Ht2. unfold root_name. cbn [nth_error].
+    rewrite HPe at 1. cbn [hd app]. unfold Q. cbn [hd app]. rewrite !str_eqb_refl. reflexivity. }
+  split.
+  { unfold valid_call. change (cfg_of i) with c. cbn [mi_op i is_replace]. change (init_forest i) with [t].
+    change (mi_from i) with [fp]. change (mi_to i) with [Some tp]. rewrite Hval. reflexivity. }
+  destruct (shift_new_full c t p x comps PX) as [t2 [Hcore Hrows]]; try assumption.
+  { split; reflexivity. }
+  { reflexivity. }
+  exists t2. split; [|split; [exact Hrows|]].
+  - unfold run, run_from. cbn [mi_op i is_replace]. change (cfg_of i) with c. change (init_forest i) with [t].
+    change (mi_from i) with [fp]. change (mi_to i) with [Some tp].
+    unfold copy_or_shift_logic. rewrite (seps_ok_no_refusal false c _ _ eq_refl), Hval.
+    cbn [map run_pairs]. rewrite Hnf, Hnt.
+    assert (Hpair : cs_pair c [t] fp (Some tp) = ([t2], None)).
+    { unfold cs_pair, resolve_from. change (f_full (c_fl c)) with true. cbn iota.
+      unfold find_full_path at 1. cbn [nth_error]. change (c_ssep c) with (a :: sp').
+      rewrite Hx3. rewrite HPe at 1. cbn [hd tl]. rewrite str_eqb_refl. cbn [negb].
+      assert (Hw : walk_names (tkids t) [0] (tl PX) = Ret (Some (0 :: p))).
+      { rewrite HPe. cbn [tl]. change (0 :: p) with ([0] ++ p).
+        apply (walk_names_complete p (tkids t) [0] [tname t] restp (wf_t_kids _ Hwf)).
+        unfold tpath in HPX. rewrite HPX, HPe. reflexivity. }
+      rewrite Hw.
+      unfold resolve_target. rewrite truthy_some by exact Htpne.
+      change (dpiece c) with 0. change (c_dsep c) with (a :: sp').
+      unfold find_full_path. cbn [nth_error]. rewrite Ht3. unfold Q at 1. cbn [app hd tl]. rewrite str_eqb_refl. cbn [negb].
+      change (tl (Q ++ [tname x])) with (comps ++ [tname x]).
+      rewrite (walk_names_absent t (comps ++ [tname x]) Hwf ltac:(destruct comps; discriminate) Habs).
+      rewrite Hsplitt, removelast_snoc.
+      assert (Hjq : join (a :: sp') Q <> []) by (apply join_nonempty_m; assumption).
+      rewrite add_path_comps_ne by exact Hjq. cbn [nth_error]. cbv zeta. rewrite Hq4.
+      unfold Q at 1. cbn [hd tl]. rewrite str_eqb_refl. cbn [negb].
+      exact Hcore. }
+    rewrite Hpair. reflexivity.
+  - rewrite Hrows. apply (edit_cs_shift_new fl t p x comps PX); try assumption; reflexivity.
+Qed.
+
 
 (* ============================================================================================== *)
 (* Part 17.  merge_leaves, for a source node all of whose children are leaves (then the leaves are    *)
